@@ -110,11 +110,11 @@ struct Tracker {
 }
 
 #[allow(clippy::too_many_arguments)]
-fn history(out: &mut Out, rng: &mut Rng, consensus: &Consensus, idx: u64, honest_only: bool, competing: bool) {
+fn history(out: &mut Out, rng: &mut Rng, consensus: &Consensus, idx: u64, honest_only: bool, competing: bool, deep: bool) {
     intern_reset(true);
     let guard = ckb_systemtime::faketime();
-    let last_n = *rng.pick(&[1u64, 2, 3, 5, 10]);
-    let n_peers = if competing { 2 } else { rng.range(1, 3) as usize };
+    let last_n = if deep { *rng.pick(&[1u64, 2, 3]) } else { *rng.pick(&[1u64, 2, 3, 5, 10]) };
+    let n_peers = if competing || deep { 2 } else { rng.range(1, 3) as usize };
     let epochs = rng.range(4, 20) as usize;
     let pbits = *rng.pick(&[6u32, 12, 24]);
     let plan = if rng.chance(2, 3) { legal_plan(rng, epochs, 2, 8, pbits) } else { flat_plan(epochs, rng.range(3, 9), rng.range(1, 30)) };
@@ -122,17 +122,20 @@ fn history(out: &mut Out, rng: &mut Rng, consensus: &Consensus, idx: u64, honest
     if total < 12 { return; }
     let act = *rng.pick(&[0u64, 0, 1, 2]);
     let main = SynChain::new_with_activation(plan, total, 1, act);
-    let fork_at = rng.range(1, total - 4);
-    let fork_extra = rng.range(2, (total - fork_at).min(40));
+    let fork_at = if deep { rng.range(1, (total / 3).max(2)) } else { rng.range(1, total - 4) };
+    // deep: the first peer is proven well above the fork point, the second one brings a heavier branch that shares
+    // none of the remembered last-N headers (the documented long-fork stop after a second, from-genesis proof)
+    let deep_height = (fork_at + last_n + rng.range(2, 6)).min(total - 2);
+    let fork_extra = if deep { (deep_height - fork_at) + rng.range(2, 12) } else { rng.range(2, (total - fork_at).min(40)) };
     let fork = main.fork(fork_at, fork_extra, 99, None);
     let chains = vec![Rc::new(main), Rc::new(fork)];
     let mut c = Client::new(&chains[0], consensus, last_n, n_peers as u32);
     let store0 = store_term(&c);
     let mut sims: Vec<PeerSim> = (0..n_peers).map(|k| {
-        let on_fork = if competing { k == 1 } else { !honest_only && rng.chance(1, 4) };
+        let on_fork = if competing || deep { k == 1 } else { !honest_only && rng.chance(1, 4) };
         let ch = if on_fork { 1 } else { 0 };
         let tip = chains[ch].tip();
-        let h0 = if competing { fork_at } else { rng.range(3, tip.min(3 + tip / 2)) };
+        let h0 = if deep { if k == 0 { deep_height } else { tip } } else if competing { fork_at } else { rng.range(3, tip.min(3 + tip / 2)) };
         PeerSim { id: PeerIndex::new(k + 1), chain: ch, height: h0, connected: false, honest: honest_only || competing || rng.chance(2, 3) }
     }).collect();
     let mut now = T0 + 10_000;
@@ -159,7 +162,16 @@ fn history(out: &mut Out, rng: &mut Rng, consensus: &Consensus, idx: u64, honest
             if let Some(j) = (0..n_peers).find(|j| sims[*j].connected && c.state(sims[*j].id).map(|s| s.get_last_state().is_none()).unwrap_or(false)) { k = j; }
         }
         let pid = sims[k].id;
+        // C04: pretend filter syncing has caught up with the stored tip, so that a fork switch must visibly rewind it
+        let (_, tip_before) = c.storage.get_last_state();
+        let tip_before_number: u64 = tip_before.raw().number().unpack();
+        let tip_before_hash = tip_before.calc_header_hash();
+        c.storage.update_min_filtered_block_number(tip_before_number);
+        let lastn_before = c.storage.get_last_n_headers();
+        let store_before_event = obs_store(&c).to_coq();
         let before_state = c.state(pid);
+        let before_all: Vec<Option<PeerState>> = sims.iter().map(|sm| c.state(sm.id)).collect();
+        let mut actor = k;
         let before_prove = obs_prove(&before_state).to_coq();
         // choose an event
         let choice = if closing && sims[k].connected && c.state(pid).map(|s| s.get_last_state().is_none()).unwrap_or(false) { 4 } else if closing {
@@ -205,7 +217,7 @@ fn history(out: &mut Out, rng: &mut Rng, consensus: &Consensus, idx: u64, honest
                 // announce a last state
                 let ch = chains[sims[k].chain].clone();
                 let first_announce = c.state(pid).map(|s| s.get_last_state().is_none()).unwrap_or(true);
-                let grow = if closing || (competing && first_announce) { 0 } else if competing { 1 } else { match rng.below(5) { 0 => 0, 1 | 2 => 1, 3 => rng.range(2, last_n + 2), _ => rng.range(2, 30) } };
+                let grow = if closing || deep || (competing && first_announce) { 0 } else if competing { 1 } else { match rng.below(5) { 0 => 0, 1 | 2 => 1, 3 => rng.range(2, last_n + 2), _ => rng.range(2, 30) } };
                 sims[k].height = (sims[k].height + grow).min(ch.tip());
                 let mut what = "announce";
                 let msg_vh: packed::VerifiableHeader = if sims[k].honest || rng.chance(2, 3) {
@@ -240,6 +252,7 @@ fn history(out: &mut Out, rng: &mut Rng, consensus: &Consensus, idx: u64, honest
             _ => {
                 // a proof: honest answer to the outstanding request, a mutation of it, or unsolicited
                 let j = if choice >= 100 { (choice - 100) as usize } else { k };
+                actor = j;
                 let pj = sims[j].id;
                 let ch = chains[sims[j].chain].clone();
                 let st = c.state(pj);
@@ -276,7 +289,15 @@ fn history(out: &mut Out, rng: &mut Rng, consensus: &Consensus, idx: u64, honest
         events.push(format!("({}, {})", now, term));
         if o.panicked {
             obs.push(Val::l(vec![Val::n(3)]));
-            problems.push(format!("[C10-handler-panic] step {} ({}) panicked", step, name));
+            let why = super::last_panic();
+            // the one deliberate stop: a second, from-genesis proof confirmed a fork deeper than last-N
+            if !why.contains("long fork detected") {
+                problems.push(format!("[C10-handler-panic] step {} ({}) panicked: {}", step, name, why));
+            }
+            // C04: the documented long-fork stop (and any other abort) must leave tip, total difficulty, last-N and records untouched
+            if obs_store(&c).to_coq() != store_before_event {
+                problems.push(format!("[C04-abort-after-store-touched] step {} ({}): the handler aborted after it had already replaced the stored tip / last-N headers", step, name));
+            }
             stopped = true;
             continue;
         }
@@ -328,10 +349,35 @@ fn history(out: &mut Out, rng: &mut Rng, consensus: &Consensus, idx: u64, honest
             }
         }
         prev_td = td;
+        // C04: when the stored tip moves to a branch that does not contain the previous tip, everything above the
+        // fork point has to be rolled back (visible here as filter progress rewound to the fork point or below)
+        if tip_hash != tip_before_hash {
+            if let Some(ch) = chains.iter().find(|ch| ch.number_of(&tip_hash).is_some()) {
+                if !ch.on_chain(tip_before_number, &tip_before_hash) && tip_before_number > fork_at {
+                    let mf = c.storage.get_min_filtered_block_number();
+                    if mf > fork_at {
+                        // which of the client's own paths moved the tip: the child fast path (no request at all), a request
+                        // whose start was rebased onto a remembered last-N header, or one that starts at this peer's own earlier proof
+                        let before_state = &before_all[actor];
+                        let rq = before_state.as_ref().and_then(|s| s.get_prove_request()).map(|r| (r.get_content().start_number().unpack(), r.get_content().start_hash()));
+                        let site = match &rq {
+                            None if name.starts_with("announce") => "child-fast-path",
+                            Some((sn, sh)) if *sn < tip_before_number && lastn_before.iter().any(|(n, h)| n == sn && h == sh) => "rebased-start",
+                            Some((_, sh)) if sh != &tip_before_hash && before_state.as_ref().and_then(|s| s.get_prove_state()).map(|p| &p.get_last_header().header().hash() == sh).unwrap_or(false) => "peer-start",
+                            Some((_, sh)) if sh != &tip_before_hash => "stale-start",
+                            _ => "other",
+                        };
+                        let start: Option<u64> = rq.map(|x| x.0);
+                        problems.push(format!("[C04-fork-switch-without-rollback-{}] step {} ({}): stored tip moved from #{} to #{} of the other branch (fork point #{}), but filter progress stays at {} (request start {:?}, last_n {})", site, step, name, tip_before_number, ch.number_of(&tip_hash).unwrap(), fork_at, mf, start, last_n));
+                    }
+                }
+            }
+        }
         // C05 (honest histories): nobody is banned or disconnected
         if honest_only && (!o.bans.is_empty() || !o.disconnects.is_empty()) {
             let code = o.bans.first().map(|b| b.1).unwrap_or(0);
-            let class = if code == 400 { "C05-honest-rejected-no-sample-in-sampled-gap" } else { "C05-honest-banned" };
+            // 434 on a chain that is tau-legal by construction: the estimated total-difficulty limit rejects a legal history (the C14 finding)
+            let class = if code == 400 { "C05-honest-rejected-no-sample-in-sampled-gap" } else if code == 434 { "C05-honest-rejected-legal-history-by-difficulty-limit" } else { "C05-honest-banned" };
             problems.push(format!("[{}] step {} ({}): bans {:?} disconnects {:?}", class, step, name, o.bans, o.disconnects));
         }
         let _ = before_prove;
@@ -352,7 +398,7 @@ fn history(out: &mut Out, rng: &mut Rng, consensus: &Consensus, idx: u64, honest
     let mut kv: Vec<String> = kinds.iter().map(|(k, v)| format!("{}={}", k, v)).collect();
     kv.sort();
     let descr = format!("history of {} events over {} peers (last_n {}, main chain {} blocks, fork at {} +{}), events: {}", events.len(), n_peers, last_n, total, fork_at, fork_extra, kv.join(","));
-    let tag = if competing { "competing-children" } else if honest_only { "honest" } else { "mixed" };
+    let tag = if deep { "deep-fork" } else if competing { "competing-children" } else if honest_only { "honest" } else { "mixed" };
     out.case(&format!("history-{}", idx), &["history", tag], &model, &impl_v, oracle, &descr);
     intern_reset(false);
 }
@@ -399,6 +445,7 @@ pub(crate) fn run(seed: u64, n: u64, out: &mut Out) {
     let consensus = dummy_consensus();
     codec_cases(&mut rng, (n / 4).max(8), out);
     for i in 0..n {
-        history(out, &mut rng, &consensus, i, i % 2 == 0, i % 5 == 3);
+        let deep = i % 8 == 6;
+        history(out, &mut rng, &consensus, i, i % 2 == 0, i % 5 == 3 && !deep, deep);
     }
 }
